@@ -28,12 +28,24 @@ class Ctx:
     def count(self, key, n=1):
         self.stats[key] = self.stats.get(key, 0) + n
 
+def _jsonable(x):
+    """replay records must be JSON: bytes become hex strings, tuples lists, unknown objects their repr"""
+    if isinstance(x, (bytes, bytearray)):
+        return bytes(x).hex()
+    if isinstance(x, dict):
+        return {str(k): _jsonable(v) for k, v in x.items()}
+    if isinstance(x, (list, tuple)):
+        return [_jsonable(v) for v in x]
+    if isinstance(x, (str, int, float, bool)) or x is None:
+        return x
+    return repr(x)
+
 class Failure:
     """A concrete input on which the property fails on the real code."""
     def __init__(self, oracle, args, what, tags=None):
         self.oracle, self.args, self.what, self.tags = oracle, args, what, dict(tags or {})
     def to_json(self):
-        return {"oracle": self.oracle, "args": self.args, "what": self.what, "tags": self.tags}
+        return {"oracle": self.oracle, "args": _jsonable(self.args), "what": self.what, "tags": _jsonable(self.tags)}
 
 # ----------------------------------------------------------------------------- lake / proof
 
@@ -174,6 +186,7 @@ def correspondence(lines, ctx, max_report=20):
             timeouts.append(l)
         if a != b:
             diffs.append({"line": l, "impl": a, "model": b})
+    diffs = [shrink_diff(d) for d in diffs[:5]] + diffs[5:]
     nontrivial = set()
     for l, a in zip(lines, impl):
         if "ok:" in a or "{" in a or a in ("True", "False"):
@@ -183,6 +196,30 @@ def correspondence(lines, ctx, max_report=20):
             "distribution": dist,
             "impl_s": round(t1 - t0, 2), "model_s": round(t2 - t1, 2),
             "samples": [{"request": l, "answer": a} for l, a in list(zip(lines, impl))[:3]]}
+
+def shrink_diff(d, budget=150):
+    """minimise a disagreeing history line: drop operations while model and implementation still disagree"""
+    line = d["line"]
+    if not line.startswith("H ") or " :: " not in line:
+        return d
+    hd, body = line.split(" :: ", 1)
+    ops = body.split("|")
+    i = 0
+    best = d
+    while i < len(ops) and budget > 0 and len(ops) > 1:
+        trial = hd + " :: " + "|".join(ops[:i] + ops[i + 1:])
+        budget -= 1
+        try:
+            a = core.run_line_impl(trial)
+            b = core.run_driver([trial])[0]
+        except Exception:
+            break
+        if a != b:
+            ops = ops[:i] + ops[i + 1:]
+            best = {"line": trial, "impl": a, "model": b, "shrunk_from": d["line"][:400]}
+        else:
+            i += 1
+    return best
 
 def distribution(lines, answers):
     """what the generated stream looked like: request kinds and classes, operation kinds, answer kinds
